@@ -255,7 +255,7 @@ class Stats(object):
             d["violations"] += v["violations"]
 
 
-def explore(h, pi, stack, bound, budget, order="rr", jump=False, rerun_stride=500):
+def explore(h, pi, stack, bound, budget, order="rr", jump=False, rerun_stride=97):
     """DFS by re-execution.  stack: list of (prefix tuple, cost, expect).  Runs at most
     `budget` executions; returns (Stats, remaining stack)."""
     st = Stats()
